@@ -2,12 +2,16 @@
 C14 - loading a CSV file reproduces the saved table under every header mode.
 
 Lean: lean/N0Verif/Model/CsvFile.lean (file layer, option checks, header decision, record loop,
-      save_csv), Proofs/CsvFile.lean, Props/C14.lean
+      save_csv), Proofs/CsvFile.lean, Props/C14.lean;
+      lean/N0Verif/Model/CsvReader.lean (csv.reader state machine of _csv.c, csv.DictReader +
+      load_native_csv, load_simple_csv), Proofs/CsvReader.lean
 B streams: csvfile.load/table (tables x option product x EOL x BOM x mode), csvfile.load/soup (raw
       content), csvfile.textlines / csvfile.binlines (file layer vs real open()/readline()),
-      csvfile.save (save_csv bytes on disk)
+      csvfile.save (save_csv bytes on disk), csvr.reader (csv.reader on written lines, soup, several
+      lines), csvr.nllines (newline=''), csvr.native (load_native_csv), csvr.simple (load_simple_csv)
 C evaluators: roundtrip (one transcription per header mode), refused, empty_file, csv_module
-      (csv.reader / load_native_csv / load_simple_csv agreement)
+      (csv.reader / load_native_csv / load_simple_csv agreement), reader_agrees, reader_vs_parse,
+      native_agrees, simple_agrees, simple_soup, strip_field, strip_line_clean, keep_empty_lines
 """
 import atexit
 import csv
@@ -21,7 +25,8 @@ from harness.core import enc_str, enc_strs
 MANIFEST = dict(
     category="proof",
     technique="Lean 4 theorems over a hand-written model of load_csv/save_csv (file layer, option checks, header "
-    "decision, record loop) resting on the C13 line round trip + differential correspondence with the implementation on real files",
+    "decision, record loop) resting on the C13 line round trip, and over models of csv.reader (the _csv.c state machine), "
+    "csv.DictReader/load_native_csv and load_simple_csv + differential correspondence with the implementation on real files",
     text="Lean theorems (unbounded in table size and cell length; cells without CR/LF/U+FEFF; delimiter a single character "
     "other than quote/CR/LF/U+FEFF; header names unique): C14_header_from_file (header_is_mandatory=True, legacy "
     "contains_header=True, first-column name, list of mandatory names), C14_header_given_both, C14_header_given_only, "
@@ -32,12 +37,30 @@ MANIFEST = dict(
     "C14_binary_encoded (for every ASCII-transparent byte encoder the encoded file is the file of the encoded table, so binary "
     "mode yields the same table as encoded bytes), all of the form "
     "loadCsv opts (fileOf bom d eol header rows) = expected records, with blank lines (empty rows) anywhere. "
-    "The model is compared with list(load_csv(...)) on real files for the whole option product (including every "
-    "SyntaxError/ReferenceError/KeyError/EOFError/ValueError branch), the file layer with open()/readline(), "
-    "saveCsv with the bytes save_csv writes; the statement itself is executed on the implementation per header mode. "
-    "Agreement with csv.reader / load_native_csv / load_simple_csv is differential only.",
-    note="UTF-8 codec, universal-newline layer, tell/seek of text files and csv.writer are modelled, not verified "
-    "(each validated by its own stream); binary mode takes names as bytes. Model follows the code with fix patches C14-a..e.",
+    "Agreement with the standard csv reader is proved, not sampled: C14_agrees_with_csv_reader / _writer (on every line the "
+    "library generator (row != ['']) or csv.writer produces from a row without line breaks, the model of csv.reader "
+    "(strict, excel dialect, given delimiter) and parse_complex_csv_line both return the row), C14_reader_vs_parse (on an "
+    "arbitrary physical line the two differ exactly when the last quoted field is left open - library accepts, csv.reader "
+    "raises csv.Error - and in the exception class, ValueError vs csv.Error), C14_reader_blank_line ([] vs ['']), "
+    "counter-examples C14_reader_open_quote_cex / C14_reader_lone_empty_cex, C14_reader_reads_saved_file (csv.reader over the "
+    "saved file returns header + rows). load_native_csv (csv.DictReader): C14_native_header_given_both, C14_native_names_only, "
+    "C14_native_header_from_file (column_names=None, after fix C14-f also with the default contains_header=True), "
+    "C14_native_missing_refused, C14_native_record (named part = load_csv's record, surplus cells under the key None) - each "
+    "gives the closed form and equality with load_csv's records in the matching mode. load_simple_csv: C14_simple_no_quote "
+    "(for EVERY file without a quote character and EVERY option record in text mode load_simple_csv = load_csv), "
+    "C14_simple_saved_table (saved tables whose cells contain neither delimiter nor quote), C14_simple_quote_cex. Closed forms: "
+    "C14_strip_field / _positional (records = the table of str.strip()-ed names and cells; C14_strip_padded: strip removes exactly "
+    "the surrounding blanks), C14_strip_line_clean (strip_line=True is the identity on tables whose written lines have no outer "
+    "blank; C14_strip_line_cex shows it is not strip_field), C14_keep_empty_lines / _positional (skip_empty_lines=False: every "
+    "row after the header yields a record, a blank line the record {first name: '', others: None}). "
+    "The models are compared with the real code on real files for the whole option product (including every "
+    "SyntaxError/ReferenceError/KeyError/EOFError/ValueError/csv.Error/TypeError branch): list(load_csv(...)), the file layer "
+    "with open()/readline() (also newline=''), the bytes save_csv writes, csv.reader on written lines and soup (one line, "
+    "several lines, records spanning lines), load_native_csv, load_simple_csv; each statement is also executed on the implementation.",
+    note="UTF-8 codec, universal-newline layer, tell/seek of text files, csv.writer and csv.reader (CPython _csv.c, "
+    "field_size_limit not modelled) / csv.DictReader are modelled, not verified "
+    "(each validated by its own stream); binary mode takes names as bytes. Model follows the code with fix patches C14-a..f. "
+    "strip_line on lines WITH outer blanks has no closed form (it depends on the quoting of the outer cells); covered by B.",
     design_ref="5/C14",
 )
 
@@ -554,7 +577,17 @@ def cls_empty_missing_name(c, detail=None):
     return "" in names
 
 
+def cls_native_default(c, detail=None):
+    """C14-f: load_native_csv with column_names=None and a truthy contains_header (the default)"""
+    if c.get("nmode") == "default":
+        return True
+    if "nmode" in c or "mode" in c or "se" in c or not isinstance(c.get("ch"), str):
+        return False
+    return c.get("cn") is None and (c["ch"] == "D" or bool(CH_VALUES.get(c["ch"])))
+
+
 CLASSIFIERS = {
+    "cls_native_default": cls_native_default,
     "cls_legacy_true": cls_legacy_true,
     "cls_xpath_name": cls_xpath_name,
     "cls_empty_rows": cls_empty_rows,
@@ -575,6 +608,8 @@ def known_class(c, detail=None):
 def witness_fails(finding):
     core.import_repo()
     w = finding["witness"]
+    if "nmode" in w:
+        return check_native_agrees(w) is not None
     if "mode" in w:
         return check_roundtrip(w) is not None
     if "file" in w:
@@ -1356,7 +1391,10 @@ def run(ctx):
         "binary read mode: every name (column_names, contains_header) is passed as bytes; one-byte delimiter",
         "process_field/process_line/parse_csv_line callables, other encodings and the ignored EOL argument are outside the model",
         "an empty file (no header, no rows) is refused with EOFError by an explicit branch; the no-header modes are stated for tables with at least one non-empty row",
-        "model follows the code with fix patches C14-a..e applied",
+        "model follows the code with fix patches C14-a..f applied",
+        "csv.reader: model of CPython 3.12 Modules/_csv.c parse_process_char / Reader_iternext for dialect excel + delimiter, strict=True (no escapechar, no skipinitialspace, QUOTE_MINIMAL); csv.field_size_limit() (131072) not modelled; validated by stream csvr.reader",
+        "csv.DictReader (restkey=None, restval=None, blank rows skipped, fieldnames from the first row when not given) is modelled and validated by stream csvr.native; a file opened with newline='' by stream csvr.nllines",
+        "load_simple_csv is modelled as load_csv with the split parser (loadLinesWith; Lean lemma loadLinesWith parseLine = loadLines), validated by stream csvr.simple; in binary mode it raises TypeError (str argument to bytes.rstrip)",
     ]
     ctx.extra["trusted_base"] = ["CPython open() text layer (universal newlines, utf-8-sig, tell/seek) and csv.writer: modelled, differentially validated"]
     run_reader(ctx, cases, scases, rcases)
